@@ -139,41 +139,43 @@ theorem commit_run (L : LayoutOps) (t t' : Transcript) (pi : PublicInput)
   · next hoods =>
     split at h
     · simp at h
-    · simp at h
-    · next tf fc hfri =>
-      split at h
+    · split at h
       · simp at h
       · simp at h
-      · next tp hpow =>
-        simp only [Outcome.ok.injEq, Prod.mk.injEq] at h
-        obtain ⟨rfl, rfl⟩ := h
-        obtain ⟨hp1, hp2⟩ := powCommit_run H _ _ _ _ hpow
-        obtain ⟨hf1, hf2, hf3, _, hf5⟩ := friCommit_run H _ _ _ _ _ _ hfri
-        have hA : compositionAlpha H t L.nInteractionElements u.tracesOriginal u.tracesInteraction
-            = (randomFelt H (readFelt H (Stark.squeezeN H L.nInteractionElements
-                (readFelt H t u.tracesOriginal)).2 u.tracesInteraction)).1 := by
-          simp only [compositionAlpha, hst]
-        have hP : oodsPoint H t L.nInteractionElements u.tracesOriginal u.tracesInteraction
-            u.composition = (randomFelt H (readFelt H (randomFelt H (readFelt H
-              (Stark.squeezeN H L.nInteractionElements (readFelt H t u.tracesOriginal)).2
-              u.tracesInteraction)).2 u.composition)).1 := by
-          simp only [oodsPoint, stateAfterComposition, hst]
-        have hB : oodsAlpha H t L.nInteractionElements u.tracesOriginal u.tracesInteraction
-            u.composition u.oodsValues = (randomFelt H (readFeltVector H (randomFelt H (readFelt H
-              (randomFelt H (readFelt H (Stark.squeezeN H L.nInteractionElements
-                (readFelt H t u.tracesOriginal)).2 u.tracesInteraction)).2 u.composition)).2
-              u.oodsValues)).1 := by
-          simp only [oodsAlpha, stateAfterOodsValues, stateAfterComposition, hst]
-        intro n a b
-        simp only [n, a, b]
-        rw [hA, hB, hP, hie]
-        refine ⟨tf, ?_, hp1, hp2, rfl, squeezeN_length H _ _, rfl, hf2, hf1, trivial, hf3,
-          rfl, hoods⟩
-        simp only [commitScriptBeforeNonce, scriptToComposition, List.append_assoc,
-          List.cons_append, List.nil_append, run_absorbFelt]
-        rw [run_append, squeezeN_run]
-        simp only [run_absorbFelt, run_squeeze, run_absorbVec]
-        rw [hf5]
+      · next tf fc hfri =>
+        split at h
+        · simp at h
+        · simp at h
+        · next tp hpow =>
+          simp only [Outcome.ok.injEq, Prod.mk.injEq] at h
+          obtain ⟨rfl, rfl⟩ := h
+          obtain ⟨hp1, hp2⟩ := powCommit_run H _ _ _ _ hpow
+          obtain ⟨hf1, hf2, hf3, _, hf5⟩ := friCommit_run H _ _ _ _ _ _ hfri
+          have hA : compositionAlpha H t L.nInteractionElements u.tracesOriginal u.tracesInteraction
+              = (randomFelt H (readFelt H (Stark.squeezeN H L.nInteractionElements
+                  (readFelt H t u.tracesOriginal)).2 u.tracesInteraction)).1 := by
+            simp only [compositionAlpha, hst]
+          have hP : oodsPoint H t L.nInteractionElements u.tracesOriginal u.tracesInteraction
+              u.composition = (randomFelt H (readFelt H (randomFelt H (readFelt H
+                (Stark.squeezeN H L.nInteractionElements (readFelt H t u.tracesOriginal)).2
+                u.tracesInteraction)).2 u.composition)).1 := by
+            simp only [oodsPoint, stateAfterComposition, hst]
+          have hB : oodsAlpha H t L.nInteractionElements u.tracesOriginal u.tracesInteraction
+              u.composition u.oodsValues = (randomFelt H (readFeltVector H (randomFelt H (readFelt H
+                (randomFelt H (readFelt H (Stark.squeezeN H L.nInteractionElements
+                  (readFelt H t u.tracesOriginal)).2 u.tracesInteraction)).2 u.composition)).2
+                u.oodsValues)).1 := by
+            simp only [oodsAlpha, stateAfterOodsValues, stateAfterComposition, hst]
+          intro n a b
+          simp only [n, a, b]
+          rw [hA, hB, hP, hie]
+          refine ⟨tf, ?_, hp1, hp2, rfl, squeezeN_length H _ _, rfl, hf2, hf1, trivial, hf3,
+            rfl, hoods⟩
+          simp only [commitScriptBeforeNonce, scriptToComposition, List.append_assoc,
+            List.cons_append, List.nil_append, run_absorbFelt]
+          rw [run_append, squeezeN_run]
+          simp only [run_absorbFelt, run_squeeze, run_absorbVec]
+          rw [hf5]
 
 theorem commitScript_eq (L : LayoutOps) (u : Stark.UnsentCommitment) (cfg : StarkConfig) :
     commitScript L u cfg = commitScriptBeforeNonce L u cfg ++ [.absorbU64 u.powNonce] := by
